@@ -50,11 +50,15 @@ type Step struct {
 	G     gen.G  `json:"g"`
 	F     *Feat  `json:"f,omitempty"`
 	FC    *FColl `json:"fc,omitempty"`
+	// Noise calls (class D) made right before this step: other entry points of
+	// the package with legal but unusual arguments; their results are not checked.
+	Noise []Noise `json:"noise,omitempty"`
 }
 
 // SeqCase is one generated sequence (also the replay format).
 type SeqCase struct {
-	Steps []Step `json:"steps"`
+	Steps []Step  `json:"steps"`
+	Tail  []Noise `json:"tail,omitempty"` // noise calls between the last step and the final re-check
 }
 
 // ---------------------------------------------------------------- input layout with watched spare capacity
@@ -477,6 +481,7 @@ func checkSeq(c SeqCase) error {
 		if st.Doc == "geometry" && canon(st.G.V) == nil {
 			return fmt.Errorf("bad case: %s is a top-level empty collection (not driven in sequences)", tag)
 		}
+		runNoise(st.Noise)
 		d, err := newDoc(st)
 		if err != nil {
 			return err
@@ -507,6 +512,7 @@ func checkSeq(c SeqCase) error {
 			k.dec, k.dump0 = x, x.dump()
 		}
 	}
+	runNoise(c.Tail)
 	// after ALL steps: every retained value is still what it was
 	for i, k := range all {
 		st := k.d.st
@@ -600,7 +606,13 @@ func genSeq(t *rapid.T) SeqCase {
 			fc := genFCG(t, gfn)
 			st.FC = &fc
 		}
+		if rapid.IntRange(0, 2).Draw(t, "noisy") == 0 {
+			st.Noise = genNoise(t, 3)
+		}
 		c.Steps = append(c.Steps, st)
+	}
+	if rapid.Bool().Draw(t, "tailnoise") {
+		c.Tail = genNoise(t, 3)
 	}
 	return c
 }
@@ -635,6 +647,12 @@ func classifySeq(c SeqCase) {
 				seen[k] = true
 				kinds[k]++
 			}
+		}
+	}
+	for _, st := range c.Steps {
+		if len(st.Noise) > 0 || len(c.Tail) > 0 {
+			stats.Class("seq:with noise calls")
+			break
 		}
 	}
 	nt := false
@@ -674,10 +692,10 @@ func seqAssumptions() {
 func TestPropSequence(t *testing.T) {
 	assumptions()
 	seqAssumptions()
-	stats.Check(t, 24000, 480000, func(rt *rapid.T) {
+	stats.Check(t, 16000, 400000, func(rt *rapid.T) {
 		c := genSeq(rt)
 		classifySeq(c)
-		stats.Try(rt, "TestPropSequence", c, func() error { return checkSeq(c) })
+		stats.Try(rt, "TestPropSequence", c, func() error { return annotate(checkSeq(c)) })
 	})
 }
 
@@ -742,7 +760,7 @@ func TestEnumSequences(t *testing.T) {
 					}
 					stats.Eval("TestEnumSequences", 1)
 					classifySeq(c)
-					stats.TryT(t, "TestEnumSequences", c, func() error { return checkSeq(c) })
+					stats.TryT(t, "TestEnumSequences", c, func() error { return annotate(checkSeq(c)) })
 				}
 			}
 		}
